@@ -309,11 +309,9 @@ func (cs *ContractSet) parseFile(pkgPath, file string) error {
 			if len(fs) != 2 {
 				return fmt.Errorf("%s:%d: ghost <name> <type>", file, lineNo)
 			}
-			if curLemma != nil {
-				curLemma.Vars = append(curLemma.Vars, GhostDecl{fs[0], fs[1]})
-			} else {
-				cs.Ghosts[pkgPath] = append(cs.Ghosts[pkgPath], GhostDecl{fs[0], fs[1]})
-			}
+			// ghosts are always package-level (lemma variables use "var")
+			curLemma = nil
+			cs.Ghosts[pkgPath] = append(cs.Ghosts[pkgPath], GhostDecl{fs[0], fs[1]})
 		case "lemma":
 			curLemma = &Lemma{Name: rest}
 			lemmaPkg[curLemma] = pkgPath
